@@ -359,20 +359,26 @@ for _op in ("<", "==", ">="):
 CSEQ = "dsl_compiler/src/ir/optimizer.py::CSEOptimizer."
 
 
-def _arith_t(left_id, out_type):
+def _arith_t(left_id, out_type, label=None, metadata=None):
     return ty.TObj("IRArith", only=("IRArith",), ftypes=(("left", _ref_t(left_id)), ("right", ty.TConcrete(3)), ("op", ty.TConcrete("*")), ("output_type", ty.TConcrete(out_type)),
-                                                        ("debug_metadata", ty.TConcrete({})), ("needs_wire_separation", ty.TConcrete(False))))
+                                                        ("debug_metadata", ty.TConcrete(dict(metadata or {}))), ("needs_wire_separation", ty.TConcrete(False)),
+                                                        ("debug_label", ty.TConcrete(label))))
 
 
 def _dec_t(op, left, right):
     return ty.TObj("IRDecider", only=("IRDecider",), ftypes=(("left", left), ("right", right), ("output_value", ty.TConcrete(1)), ("test_op", ty.TConcrete(op)),
                                                             ("conditions", ty.TConcrete([])), ("copy_count_from_input", ty.TConcrete(False)), ("output_type", ty.TConcrete("signal-A")),
-                                                            ("debug_metadata", ty.TConcrete({}))))
+                                                            ("debug_metadata", ty.TConcrete({})), ("debug_label", ty.TConcrete(None))))
 
 
-_CSE_NODES = (("x", _mk_const_t(True)), ("y", _mk_const_t(True)), ("a1", _arith_t("x", "signal-A")), ("a2", _arith_t("x", "signal-A")),
-              ("a3", _arith_t("x", "signal-B")), ("a4", _arith_t("y", "signal-A")),
-              ("d1", _dec_t(">", _ref_t("x"), ty.TConcrete(7))), ("d2", _dec_t("<=", ty.TConcrete(7), _ref_t("x"))))
+def _cse_nodes(first_label):
+    return (("x", _mk_const_t(True)), ("y", _mk_const_t(True)), ("a1", _arith_t("x", "signal-A", first_label, {"name": first_label} if first_label else {})),
+            ("a2", _arith_t("x", "signal-A", "twin", {"name": "twin", "location": "line 9"})),
+            ("a3", _arith_t("x", "signal-B")), ("a4", _arith_t("y", "signal-A")),
+            ("d1", _dec_t(">", _ref_t("x"), ty.TConcrete(7))), ("d2", _dec_t("<=", ty.TConcrete(7), _ref_t("x"))))
+
+
+_CSE_NODES = _cse_nodes(None)
 
 
 def _cse_ids(a):
@@ -382,22 +388,35 @@ def _cse_ids(a):
     return a.ir_operations[0].value == a.ir_operations[1].value
 
 
-def _cse_post(a, res):
-    ids = [o.node_id for o in res]
-    return ids == ["x", "y", "a1", "a3", "a4", "d1", "d2"] and a.self.replacements == {"a2": "a1"}
+def _cse_post(first_label):
+    def post(a, res):
+        ids = [o.node_id for o in res]
+        if not (ids == ["x", "y", "a1", "a3", "a4", "d1", "d2"] and a.self.replacements == {"a2": "a1"}):
+            return False
+        kept = res[2]
+        md = kept.debug_metadata
+        # the names of the eliminated twin stay findable (C20): its id is recorded on the kept node, and an ANONYMOUS kept node takes its name over; a named one keeps its own
+        if md.get("cse_merged_ids") != ["a2"]:
+            return False
+        if first_label is None:
+            return kept.debug_label == "twin" and md.get("name") == "twin" and md.get("location") == "line 9"
+        return kept.debug_label == first_label and md.get("name") == first_label
+    return post
 
 
-cse_scenario = Contract(
-    qualname=CSEQ + "optimize",
-    params={"self": ty.TObj("CSEOptimizer", only=("CSEOptimizer",)), "ir_operations": ty.TTuple(tuple(t for _n, t in _CSE_NODES))},
-    requires=[("(node ids; the two inputs have equal initial values)", _cse_ids)],
-    ensures=[("only the node that repeats operator, operands, output type and mode of an earlier one is removed", _cse_post)],
-    uses={"CSEOptimizer._make_key": "inline", "CSEOptimizer._value_key": "inline", "CSEOptimizer._update_references": "inline", "CSEOptimizer._update_value": "inline",
-          "fn:_map_operands": "inline"},
-    dynamic_types={"self": {"expr_cache": ty.TConcrete({}), "replacements": ty.TConcrete({})}},
-    properties=("C10", "C01", "C12", "C02"), min_obligations=1, no_replay=True, note="concrete node list of 8 nodes",
-)
-CONTRACTS.append(cse_scenario)
+for _first in (None, "first"):
+    CONTRACTS.append(Contract(
+        qualname=CSEQ + "optimize",
+        params={"self": ty.TObj("CSEOptimizer", only=("CSEOptimizer",)), "ir_operations": ty.TTuple(tuple(t for _n, t in _cse_nodes(_first)))},
+        requires=[("(node ids; the two inputs have equal initial values)", _cse_ids)],
+        ensures=[("only the node that repeats operator, operands, output type and mode of an earlier one is removed; its id is recorded on the kept node, which takes its name when it has none",
+                  _cse_post(_first))],
+        uses={"CSEOptimizer._make_key": "inline", "CSEOptimizer._value_key": "inline", "CSEOptimizer._update_references": "inline", "CSEOptimizer._update_value": "inline",
+              "CSEOptimizer._inherit_names": "inline", "fn:_map_operands": "inline"},
+        dynamic_types={"self": {"expr_cache": ty.TConcrete({}), "replacements": ty.TConcrete({})}},
+        properties=("C10", "C01", "C12", "C02", "C20"), min_obligations=1, no_replay=True, note=f"concrete node list of 8 nodes; the kept twin is {'named' if _first else 'anonymous'}",
+    ))
+cse_scenario = CONTRACTS[-1]
 
 
 # =================================================================================================
